@@ -52,8 +52,14 @@ fn main() {
         "ses" => seslayer::gen_ses(&mut w, &tier, seed),
         "hist" => seslayer::gen_hist(&mut w, &tier, seed),
         "find-c04" => findlayer::gen_c04(&mut w, &tier, seed),
-        "find-c09" => findlayer::gen_c09(&mut w, &tier, seed),
-        "find-c10" => findlayer::gen_c10(&mut w, &tier, seed),
+        "find-c09" => {
+            findlayer::gen_c09(&mut w, &tier, seed);
+            find2::gen_c09_c10_sessions(&mut w, "C09");
+        }
+        "find-c10" => {
+            findlayer::gen_c10(&mut w, &tier, seed);
+            find2::gen_c09_c10_sessions(&mut w, "C10");
+        }
         "find-c12" => findlayer::gen_c12(&mut w, &tier, seed),
         "find-c13" => {
             findlayer::gen_c13(&mut w, &tier, seed);
@@ -64,6 +70,8 @@ fn main() {
         "find-c02" => find2::gen_c02(&mut w, &tier, seed),
         "find-c03" => find2::gen_c03(&mut w, &tier, seed),
         "find-c05" => find2::gen_c05(&mut w, &tier, seed),
+        "find-c06" => find2::gen_c06(&mut w, &tier, seed),
+        "find-c08" => find2::gen_c08(&mut w, &tier, seed),
         "find-c07" => find2::gen_c07(&mut w, &tier, seed),
         "find-c11" => {
             find2::gen_c11(&mut w, &tier, seed);
